@@ -9,19 +9,25 @@ PROPERTY = "C06"
 READY = True
 THEOREMS = [
     "C06.order_irrefl", "C06.order_asymm", "C06.order_trans", "C06.order_weak", "C06.order_total",
-    "C06.order_numeric", "C06.order_num_lt_word", "C06.order_release_lt_master", "C06.order_sorted",
+    "C06.order_numeric", "C06.order_num_lt_word", "C06.order_prefix", "C06.order_release_lt_master", "C06.order_sorted",
     "C06.report_branches", "C06.no_nonmatching", "C06.only_matching", "C06.under_minimal_build",
     "C06.exactly_once", "C06.not_merged_exact", "C06.at_most_once", "C06.report_total", "C06.report_total_single",
 ]
 TEXT = "BUG-7"
+OBSOLETE_PERIOD = 30 * G.DAY          # the window of the property statement ("30-day window")
 RULE = ("random commit graphs (6-16 commits, 8% extra roots, 30% merges incl. octopus, random parent order, 30% build tags, "
         "40% matching messages), 1-5 refs with heads anywhere (coinciding heads, heads inside other branches, non-release "
-        "refs, master/main, numeric-aware name traps); exhaustive graphs of <=4 commits x 2 branches in thorough. "
+        "refs, master/main, numeric-aware name traps, names whose numbers are a proper prefix of another name's: "
+        "release/1.2 vs release/1.2.1); commit times anywhere in 0..30 days, not tied to the graph (heads older than the "
+        "builds of lower-sorted branches by more than a day in ~25% of the cases; the window's edge values; 5% outside the "
+        "window: compared with the model, not judged); exhaustive graphs of <=4 commits x 2 branches in thorough. "
         "non-trivial = at least one matching commit reachable from a release/master head; distinct by protocol line")
 TRUSTED = ["tests/mock_git.py (synthetic git objects fed to the real ak.ghist code)",
            "order of remote.refs (sorted by name, as mock_git and GitPython list them) — decides ties of equal sort keys only",
            "re / int() on tag and branch names (ASCII names only)"]
-ASSUMPTIONS = ["commit times inside the 30-day window (quantifier of the property): no branch is skipped as obsolete",
+ASSUMPTIONS = ["commit times inside the 30-day window (quantifier of the property; Hist.InWindow in the theorems: no commit is more than "
+               "_OBSOLETE_BRANCH_CUTOFF_PERIOD younger than the head of a release/master branch). Outside it the code drops "
+               "branches as obsolete; the model does the same and is compared with the code there, the oracle does not judge",
                "ASCII ref names without whitespace or '+' (int() of a chunk succeeds iff it is a run of decimal digits)",
                "fewer than 10^9 report commits (pseudo build ids start at 1_000_000_000)"]
 
@@ -71,8 +77,9 @@ _REL = re.compile(r"release/(\d+(?:\.\d+)*)$")
 
 
 def spec_order(refs):
-    """release/master refs in the order of the statement (numeric-aware, master last), or None when the statement does
-    not decide the order of the given names (equal or prefix-related numbers, two master refs, exotic names)"""
+    """release/master refs in the order of the statement (numeric-aware, a name that is a proper prefix of another one
+    first, master last), or None when the statement does not decide the order of the given names (numerically equal
+    names like 1.2 / 01.2, two master refs, exotic names)"""
     rel, masters = [], []
     for n, hd in refs:
         if n in ("master", "main"):
@@ -85,10 +92,9 @@ def spec_order(refs):
     if len(masters) > 1:
         return None
     for a, b in itertools.combinations(rel, 2):
-        k = min(len(a[0]), len(b[0]))
-        if a[0][:k] == b[0][:k]:
+        if a[0] == b[0]:
             return None
-    rel.sort()
+    rel.sort()          # tuples of numbers: numeric, and (1, 2) < (1, 2, 1)
     return [(n, hd) for _, n, hd in rel] + masters
 
 
@@ -119,6 +125,18 @@ def oracle(case, replies):
     return None
 
 
+def in_window(h):
+    """the quantifier of the property: no commit is more than the obsolete-branch period younger than the head of a
+    release/master branch (then every branch has to be reported)"""
+    ts = [G.commit_ts(c, i) for i, c in enumerate(h["commits"])]
+    newest = max(ts) if ts else 0
+    for n, hd in h["refs"]:
+        if n in ("master", "main") or n.startswith("release/"):
+            if newest > ts[hd] + OBSOLETE_PERIOD:
+                return False
+    return True
+
+
 def check_report(h, report):
     commits = h["commits"]
     match = [bool(c["m"]) for c in commits]
@@ -134,7 +152,7 @@ def check_report(h, report):
                     return "twice: commit %d listed more than once in %s" % (c, name)
                 seen.add(c)
     order = spec_order(h["refs"])
-    if order is None:
+    if order is None or not in_window(h):
         return None
     names = [n for n, _ in report]
     if len(set(names)) != len(names):
@@ -206,7 +224,34 @@ EXOTIC = ["main", "release/2", "release/1.2.1", "release/abc-7.5", "release/1_10
           "release/v2", "release/01.2", "release/1.2-rc", "release/1.10.0", "HEAD", "release/B", "release/b.1"]
 
 
-def gen_hist(rng, n, nbr, exotic=False):
+PREFIX_NAMES = ["master", "release/1", "release/1.2", "release/1.2.1", "release/1.2.1.0", "release/1.10",
+                "release/1.10.0", "release/2", "release/2.0", "release/2.0.3"]
+
+
+def add_times(rng, h, mode=None):
+    """commit times: anywhere inside the 30-day window (the quantifier), not necessarily growing along the history;
+    mode "old" leaves the window (correspondence only: the oracle does not demand obsolete branches)"""
+    n = len(h["commits"])
+    if mode is None:
+        r = rng.random()
+        mode = "random" if r < 0.45 else "chrono" if r < 0.75 else "edge" if r < 0.85 else "tight" if r < 0.95 else "old"
+    if mode == "tight":
+        ts = [i * 10 for i in range(n)]
+    elif mode == "chrono":
+        span = rng.randrange(2 * G.DAY, 29 * G.DAY)
+        ts = sorted(rng.randrange(span + 1) for _ in range(n))
+    elif mode == "random":
+        ts = [rng.randrange(29 * G.DAY + 1) for _ in range(n)]
+    elif mode == "edge":
+        ts = [rng.choice([0, 1, G.DAY, G.DAY + 1, 2 * G.DAY, 29 * G.DAY, 30 * G.DAY - 1, 30 * G.DAY]) for _ in range(n)]
+    else:
+        ts = [rng.randrange(80 * G.DAY) for _ in range(n)]
+    for c, t in zip(h["commits"], ts):
+        c["ts"] = t
+    return h
+
+
+def gen_hist(rng, n, nbr, exotic=False, prefix=False, times=None):
     commits = []
     nb = 0
     for i in range(n):
@@ -237,8 +282,12 @@ def gen_hist(rng, n, nbr, exotic=False):
         rng.shuffle(extra)
         k = rng.randint(1, 3)
         names = names[:max(0, nbr - k)] + extra[:k]
+    if prefix:
+        names = list(PREFIX_NAMES)
+        rng.shuffle(names)
+        names = names[:nbr]
     refs = [[nm, rng.randrange(n)] for nm in names]
-    return {"commits": commits, "refs": refs}
+    return add_times(rng, {"commits": commits, "refs": refs}, times)
 
 
 def mk_case(h, kind, noise=False):
@@ -256,8 +305,10 @@ def small_hists(nmax, names=("master", "release/1.1")):
     for n in range(1, nmax + 1):
         for ps in shapes(n):
             for bits in range(4 ** n):
+                # times: 9 days apart, growing along the ids or against them
                 commits = [{"p": list(ps[i]), "t": ([[1, 1, 100 + i, 100 + i]] if (bits >> (2 * i)) & 1 else []),
-                            "m": (bits >> (2 * i + 1)) & 1} for i in range(n)]
+                            "m": (bits >> (2 * i + 1)) & 1,
+                            "ts": 9 * G.DAY * (i if (bits + n) % 2 else n - 1 - i)} for i in range(n)]
                 for heads in itertools.product(range(n), repeat=len(names)):
                     yield {"commits": commits, "refs": [[nm, hd] for nm, hd in zip(names, heads)]}
 
@@ -270,6 +321,8 @@ def gen_cases(rng, tier):
         yield mk_case(gen_hist(rng, n, nbr), "random", noise=(k % 7 == 0))
     for k in range(400 if tier == "quick" else 6000):
         yield mk_case(gen_hist(rng, 4 + k % 9, 2 + k % 4, exotic=True), "exotic-names")
+    for k in range(500 if tier == "quick" else 8000):
+        yield mk_case(gen_hist(rng, 3 + k % 9, 2 + k % 4, prefix=True), "prefix-names")
     for k in range(100 if tier == "quick" else 2000):
         yield mk_case(gen_hist(rng, 17 + k % 14, 1 + k % 5), "bigger")
     if tier == "thorough":
@@ -292,7 +345,15 @@ def corpus():
     # the defect repaired by 8729393: the head of release/1.10 lies inside release/1.2
     h = {"commits": [{"p": [], "t": [], "m": 1}, {"p": [0], "t": [[1, 1, 101, 101]], "m": 0}],
          "refs": [["release/1.2", 1], ["release/1.10", 0]]}
-    return [mk_case(h, "corpus-head-inside-lower-branch")]
+    # the head of release/1.10 is five days older than the only build of the lower-sorted release/1.2: still inside
+    # the 30-day window, so release/1.10 has to be reported
+    h2 = {"commits": [{"p": [], "t": [], "m": 1, "ts": 0}, {"p": [], "t": [[1, 1, 101, 101]], "m": 1, "ts": 5 * G.DAY}],
+          "refs": [["release/1.2", 1], ["release/1.10", 0]]}
+    # sort items of release/1.2 are a proper prefix of those of release/1.2.1: release/1.2 is the lower-sorted branch
+    h3 = {"commits": [{"p": [], "t": [], "m": 1}, {"p": [0], "t": [], "m": 1}],
+          "refs": [["release/1.2", 0], ["release/1.2.1", 1]]}
+    return [mk_case(G.with_times(h), "corpus-head-inside-lower-branch"),
+            mk_case(h2, "corpus-head-older-than-lower-builds"), mk_case(G.with_times(h3), "corpus-prefix-names")]
 
 
 def shrink(case):
@@ -321,7 +382,7 @@ def shrink(case):
                     q2 = q - 1 if q > k else q
                     if q2 not in ps:
                         ps.append(q2)
-            commits.append({"p": ps, "t": c["t"], "m": c["m"]})
+            commits.append({"p": ps, "t": c["t"], "m": c["m"], "ts": c["ts"]})
         refs = []
         for nm, hd in h["refs"]:
             if hd == k:
@@ -331,6 +392,13 @@ def shrink(case):
             refs.append([nm, hd - 1 if hd > k else hd])
         if commits and refs:
             yield mk({"commits": commits, "refs": refs})
+    # simpler times: whole days, then 10 s apart
+    days = [dict(c, ts=c["ts"] // G.DAY * G.DAY) for c in h["commits"]]
+    if days != h["commits"]:
+        yield mk({"commits": days, "refs": h["refs"]})
+    tight = [dict(c, ts=i * 10) for i, c in enumerate(h["commits"])]
+    if tight != h["commits"]:
+        yield mk({"commits": tight, "refs": h["refs"]})
     # simplify a commit
     for k in range(n):
         c = h["commits"][k]
@@ -375,6 +443,17 @@ def tags(case, replies):
             seen |= G.anc(h, hd)
     if any(len(c["p"]) > 1 for c in h["commits"]):
         yield "has-merge"
+    ts = [c["ts"] for c in h["commits"]]
+    if not in_window(h):
+        yield "outside-30-day-window(not judged)"
+    elif order is not None:
+        low = None          # earliest build time of the lower-sorted branches
+        for nm, hd in order:
+            if low is not None and low > ts[hd] + G.DAY:
+                yield "head>1day-older-than-lower-builds"
+                break
+            bt = [ts[c] for c in G.anc(h, hd) if h["commits"][c]["t"] or c == hd]
+            low = min(bt + ([low] if low is not None else []))
 
 
 LEVEL_TEXT = ("All clauses of the property are kernel-checked Lean theorems about the executable model of RGraph that the driver "
@@ -384,14 +463,17 @@ LEVEL_TEXT = ("All clauses of the property are kernel-checked Lean theorems abou
               "commit new in the branch (only_matching, no_nonmatching), no earlier build of the branch contains the commit "
               "(under_minimal_build), a matching commit contained in some build of the branch is listed (exactly_once) and at most "
               "once anywhere in the branch (at_most_once), 'not merged' lists exactly the matching commits of lower-sorted branches "
-              "not reachable from the head (not_merged_exact), branches are read in a strict weak (total) order, numeric-aware, "
-              "release below master (order_*), and the report shows them reversed without empty branches (report_branches). "
+              "not reachable from the head (not_merged_exact), branches are read in a strict weak (total) order, numeric-aware, a "
+              "proper prefix first, release below master (order_*), and the report shows them reversed without empty branches "
+              "(report_branches). The model has the commit times and the obsolete-branch test of RGraph.__init__; the report "
+              "theorems carry the hypothesis Hist.InWindow, stated with the _OBSOLETE_BRANCH_CUTOFF_PERIOD the translator "
+              "reads from ak/ghist.py, under which no branch is dropped (rgraph_nw); report_total needs no window. "
               "model = code is established by a differential run of the compiled model against the real ak.ghist on synthetic "
               "histories fed through tests/mock_git.py; an independent ancestor-set oracle judges the real reports.")
 LEVEL_NOTE = ("Trusted: Lean kernel (axioms propext, Classical.choice, Quot.sound), translator of the constants of ak/ghist.py "
-              "(separators, sentinel, master names, fake build numbers), adapter and mock git objects, sampled correspondence "
-              "(random DAGs 4-30 commits, 1-5 refs, exhaustive <=4 commits x 2 branches in thorough). Not modelled: commit times "
-              "(the property quantifies over histories inside the 30-day window), tag-name parsing (build numbers are passed to "
+              "(separators, sentinel, master names, fake build numbers, the two cut-off periods), adapter and mock git objects, "
+              "sampled correspondence (random DAGs 3-30 commits, 1-5 refs, times in and around the window, exhaustive <=4 commits x "
+              "2 branches in thorough). Not modelled: tag-name parsing (build numbers are passed to "
               "the model as numbers; the real code parses the tag strings, incl. master-style tags completed from VERSION). The "
               "theorems assume Hist.Topo (parents have smaller ids); report_total shows that the model always returns a report "
               "when the refs point to existing commits.")
